@@ -8,6 +8,7 @@ use serde_json::{json, Value};
 use std::collections::{BTreeMap, HashMap};
 use std::io::Write;
 
+mod d_cf;
 mod d_entry;
 mod d_pipe;
 mod d_scan;
@@ -117,6 +118,7 @@ fn main() {
     "pipe" => d_pipe::run(&args),
     "entry" => d_entry::run(&args),
     "scan" => d_scan::run(&args),
+    "cf" => d_cf::run(&args),
     x => {
       eprintln!("unknown sub {}", x);
       std::process::exit(2);
